@@ -25,7 +25,14 @@ theorem safe_appendWal (d : Disk) (bs : List WBatch) (n : Nat) (b : WBatch) (h :
   simp only [ok, hr, Bool.and_eq_true, decide_eq_true_eq, List.contains_iff_mem, List.all_eq_true,
     walNumbers] at hok
   obtain ⟨⟨⟨hmem, hmax⟩, hwn⟩, hseq⟩ := hok
-  have hmax' : ∀ x ∈ d.wals, x.1 ≤ n := fun x hx => hmax x.1 (List.mem_map.2 ⟨x, hx, rfl⟩)
+  -- every WAL with a larger number is still empty
+  have hmax' : ∀ x ∈ d.wals, n < x.1 → x.2 = [] := by
+    intro x hx hlt
+    have h1 := hmax x hx
+    simp only [Bool.or_eq_true, decide_eq_true_eq, List.isEmpty_iff] at h1
+    rcases h1 with h1 | h1
+    · omega
+    · exact h1
   refine safe_intro ⟨hm, nodup_update _ _ _ hw, ht⟩ c { r with entries := r.entries ++ batchEntries b } hc ?_ ?_
   · exact recoverFrom_transfer d _ c r (batchEntries b) hrc rfl (fun _ _ => rfl)
       (walEntries_appendWal d.wals n r.walNo b hw hmem hmax' hwn)
